@@ -315,11 +315,11 @@ GEO_NOTE = ("Trusted: Coq kernel; correspondence harness incl. its independent f
             "the undecided band). NOT proved: the numeric accuracy of Go's math functions and of the formulas over the continuous domain (DESIGN.md section 7) - those clauses are tested per instance.")
 
 prop("C17",
-     axioms="none",
+     axioms="reals",
      level="proof",
      design_ref="DESIGN.md section 5 C17 and section 7",
-     technique="Rocq proof of the decision logic for all values of the computed quantities (tolerance monotone, end-point order, end caps) + correspondence of that decision on the real intermediate quantities (verif hook) + per-instance geometric test against an independent distance-to-segment computation outside the guard band. PARTIAL: geometry is tested, not proved",
-     text="Proved (over exact rationals, every float64 being one): enlarging the tolerance never turns a hit into a miss, swapping the end-point distances does not change the decision, within "
+     technique="Rocq proof of the decision logic for all values of the computed quantities (tolerance monotone, end-point order, end caps) + correspondence of that decision on the real intermediate quantities (verif hook) + per-instance geometric test against an independent distance-to-segment computation outside the guard band. Over the reals, for the formulas as written: havSin = hav(asin), sinSum = sin(invHav x + invHav y), and the cross-track argument sinHav(dist01)*sinDeltaBearing = (v1.(v0 x v2))/|v1 x v2| / cos(theta01/2) (C17_cross_track_argument). PARTIAL: floating-point accuracy and the along-track/end-cap geometry are tested, not proved",
+     text="Proved over R (C17_cross_track_argument, C17_cross_norm, C17_chord_factor, C17_hav_sin, C17_sin_sum, C17_sin_hav): the product fed to havSin is exactly the sine of the fix's angular distance from the great circle through the end points (triple product over |v1 x v2|) times 1/cos(theta01/2) - the chord stands in for the sine of the distance to end point 1, a factor below 1+4e-9 within a kilometre; havSin and sinSum are the trigonometric quantities their comments name.  Proved (over exact rationals, every float64 being one): enlarging the tolerance never turns a hit into a miss, swapping the end-point distances does not change the decision, within "
           "tolerance of an end point is always a hit.  The decision model is tied to the code by feeding it the very quantities OnLine computed (exposed under the verif tag).  That those "
           "quantities mean 'great-circle distance to the segment' is NOT proved: each generated (line, position, tolerance, radius) is compared with an independent computation, and hits/misses "
           "are demanded only outside 1% + 0.1 mm + twice the oracle's own error estimate.",
